@@ -51,6 +51,9 @@ func (self ValueObject) DisplayFlat() (string, *VmInterrupt) {
 }
 
 func (self ValueObject) IsEqual(other Value) (bool, *VmInterrupt) {
+	if other.Kind() != self.Kind() {
+		return false, nil
+	}
 	otherObj := other.(ValueObject)
 
 	// Keys which only exist in `other` would otherwise go unnoticed.
